@@ -741,7 +741,13 @@ func (w *_assemblerRepr) AssignBool(b bool) error {
 func (w *_assemblerRepr) assignUInt(uin datamodel.UintNode) error {
 	switch stg := reprStrategy(w.schemaType).(type) {
 	case schema.UnionRepresentation_Kinded:
-		return w.asKinded(stg, datamodel.Kind_Int).(*_assemblerRepr).assignUInt(uin)
+		switch asm := w.asKinded(stg, datamodel.Kind_Int).(type) {
+		case *_assemblerRepr:
+			return asm.assignUInt(uin)
+		default:
+			// no int member: asKinded yielded an assembler that only carries the error
+			return asm.AssignNode(uin)
+		}
 	case schema.EnumRepresentation_Int:
 		uin, err := uin.AsUint()
 		if err != nil {
@@ -1017,8 +1023,7 @@ func (w *_mapAssemblerRepr) AssembleKey() datamodel.NodeAssembler {
 }
 
 func (w *_mapAssemblerRepr) AssembleValue() datamodel.NodeAssembler {
-	asm := (*_mapAssembler)(w).AssembleValue()
-	return (*_assemblerRepr)(asm.(*_assembler))
+	return assemblerRepr((*_mapAssembler)(w).AssembleValue())
 }
 
 func (w *_mapAssemblerRepr) AssembleEntry(k string) (datamodel.NodeAssembler, error) {
@@ -1173,8 +1178,7 @@ func (w *_listpairsFieldListAssemblerRepr) AssembleValue() datamodel.NodeAssembl
 	case 1:
 		return w.parent.AssembleKey()
 	case 2:
-		asm := w.parent.AssembleValue()
-		return assemblerRepr(asm.(*_assembler))
+		return assemblerRepr(w.parent.AssembleValue())
 	default:
 		return _errorAssembler{fmt.Errorf("bindnode: too many values in listpairs field")}
 	}
